@@ -151,11 +151,13 @@ fn run_packed(kv: &BTreeMap<String, String>) -> i32 {
         "pk_teddy" => {
             let (len, off, pad) = (us("len"), us("off"), us("pad") as u8);
             let w = unhex(kv.get("w").unwrap());
-            let s = us("s");
+            let s = kv.get("s").map(|v| v.parse::<usize>().unwrap()).unwrap_or(0);
+            // span end inside the haystack (C10's pk_teddy_end); the whole haystack otherwise
+            let end = kv.get("end").map(|v| v.parse::<usize>().unwrap()).unwrap_or(len);
             let mut hay = vec![pad; len];
             hay[off..off + w.len()].copy_from_slice(&w);
-            let got = tup(srch.find_in(&hay, Span { start: s, end: len }));
-            let want = oracle::leftmost(&pats, &hay, s, len, spec.kind, false, false);
+            let got = tup(srch.find_in(&hay, Span { start: s, end }));
+            let want = oracle::leftmost(&pats, &hay, s, end, spec.kind, false, false);
             report("Teddy find_in", &got, &want, got != want)
         }
         t => {
